@@ -243,6 +243,9 @@ def case_parallel(**p):
   case.encoded(PCL.ParallelCombination.call)
   cals = [tfl.layers.PWLCalibration(input_keypoints=[0.0, 1.0, 3.0]), tfl.layers.PWLCalibration(input_keypoints=[-1.0, 0.0, 0.5, 2.0]),
           tfl.layers.CategoricalCalibration(num_buckets=3, default_input_value=0)][:p['n']]
+  if p.get('shared'):
+    # weight sharing: the same calibrator object serves several columns
+    cals = [cals[0], cals[1], cals[0], cals[1]][:p['n']]
   pc = PCL.ParallelCombination(single_output=p['single'])
   for c_ in cals:
     pc.append(c_)
@@ -255,12 +258,14 @@ def case_parallel(**p):
     specs_ = [tf.TensorSpec([1, n], tf.float32)]
   tp = Traced(fn, specs_, name='ParallelCombination.call')
   singles = [Traced(lambda x, c_=c_: c_(x), [tf.TensorSpec([1, 1], tf.float32)], name='calibrator%d' % i) for i, c_ in enumerate(cals)]
-  cat_vals = [0.0, 1.0, 2.0] if n == 3 else [None]
+  cat_vals = [0.0, 1.0, 2.0] if (n == 3 and not p.get('shared')) else [None]
   for cv in cat_vals:
     sym.new_ctx()
     vv, wit = {}, {}
     for i, c_ in enumerate(cals):
       for j, v in enumerate(c_.weights):
+        if v.ref() in vv:
+          continue
         a = sym.symbolic('v%d_%d' % (i, j), tuple(v.shape))
         vv[v.ref()] = a
         wit['v%d_%d' % (i, j)] = a
@@ -498,6 +503,8 @@ def cases(tier, seed):
   add('case_parallel', n=2, single=True)
   add('case_parallel', n=3, single=True, list_input=True)
   add('case_parallel', n=3, single=False)
+  add('case_parallel', n=3, single=True, shared=True)
+  add('case_parallel', n=4, single=False, shared=True, list_input=True)
   for lens in ([1, 2], [2, 2], [3, 1]):
     add('case_aggregation', lens=lens)
   add('case_rtl', num=2, rank=2, n_unc=1, n_inc=2)
